@@ -13,12 +13,16 @@
             gen -1 none | 0 NP1 | 1 NP2.1 | 2 NP2.4 | 3 NPultra; enc 0 shank map | 1 geometry map
             | 2 no map; split -1 or the NP2.4_shank value
      output 1 :: raw_channel_order   or [0] (outside the model's domain)
+   api 4 (volts-per-bit vector of the reader, through C09's model of the meta file):
+     input  4 :: code points of the .meta text
+     output 1 :: rm :: rs :: maxint :: n :: conv_0 .. (range = rm / 10^rs; conv: CG (m,s) -> [0;m;s]
+            = range/maxint/(m/10^s), C1 -> [1;0;0] = 1), on-disk channel order;  or [0]
            0 :: row_dropped :: col_dropped :: nrows :: ncols :: cells (sample, disk channel,
            gain index for each cell, row-major). *)
 From Coq Require Import ZArith List Bool.
 From IBL.lib Require Import PyInt RunLib.
-From IBL.C01 Require Import Model Geometry.
-Require IBL.C08.Run.
+From IBL.C01 Require Import Model Geometry Gains.
+Require IBL.C08.Run IBL.C09.Run.
 Import ListNotations.
 Open Scope Z_scope.
 
@@ -76,9 +80,16 @@ Definition run_order (inp : list Z) : list Z :=
   | _ => [-999]
   end.
 
+Definition run_gains (text : list Z) : list Z :=
+  match reader_gains text with
+  | Some (r, mi, l) => 1 :: IBL.C09.Run.enc_dec r ++ mi :: enc_list IBL.C09.Run.enc_conv l
+  | None => [0]
+  end.
+
 Definition run (inp : list Z) : list Z :=
   match inp with
   | 3 :: r => run_order r
+  | 4 :: r => run_gains r
   | api :: cb :: nb :: r0 =>
       let '(bounds, r1) := take_z nb r0 in
       match r1 with
